@@ -296,7 +296,8 @@ def make_op(rng, tag, tfiles):
         gen.assign_heads(rng, spec)
         return {'k': 'transitions', 'system': system, 'spec': spec}
     # cli
-    sub = rng.choice(['transform', 'transform', 'grammar'])
+    sub = rng.choice(['transform', 'transform', 'grammar', 'grammar',
+                      'treeanalysis', 'transitions'])
     sfmt = rng.choice(['export', 'brackets', 'tigerxml', 'discobrackets'])
     bank = small_bank(rng, rng.randint(1, 4), cont=True,
                       pools=gen.Pools(cats=['S', 'NP', 'VP'],
@@ -316,6 +317,19 @@ def make_op(rng, tag, tfiles):
             argv += ['--dest-opts', 'brackets_emptyroot']
         if rng.random() < 0.2:
             argv += ['--split', '50%_rest']
+        return {'k': 'cli', 'argv': argv, 'sfmt': sfmt, 'text': text,
+                'tag': tag}
+    if sub == 'treeanalysis':
+        return {'k': 'cli', 'argv': ['treeanalysis', '{src}', rng.choice(
+            ['GapDegree', 'PosTags', 'SentenceCount']), '--src-format', sfmt,
+            '--src-opts', 'quiet'], 'sfmt': sfmt, 'text': text, 'tag': tag,
+            'stdout': True}
+    if sub == 'transitions':
+        argv = ['transitions', '{src}', '{dest}', rng.choice(
+            ['topdown', 'inorder', 'gap']), '--transform', 'negra_mark_heads',
+            'binarize', '--src-format', sfmt, '--src-opts', 'quiet']
+        if rng.random() < 0.4:
+            argv += ['--dest-opts', 'pos']
         return {'k': 'cli', 'argv': argv, 'sfmt': sfmt, 'text': text,
                 'tag': tag}
     argv = ['grammar', '{src}', '{dest}', rng.choice(['treebank', 'leftright',
